@@ -110,7 +110,7 @@ impl Expression {
         let i32_form = i * 2 + 1;
         collector.push_str(&i32_form.to_string())
       }
-      Self::Variable(n, _) => collector.push_str(n.as_str(heap)),
+      Self::Variable(n, _) => push_variable_name(collector, n.as_str(heap)),
       Self::StringName(n) => {
         collector.push_str("GLOBAL_STRING_");
         collector.push_str(&str_table.get(n).unwrap().to_string());
@@ -122,6 +122,25 @@ impl Expression {
   pub fn type_is_str(&self) -> bool {
     matches!(self, Self::StringName(_) | Self::Variable(_, Type::Id(TypeNameId::STR)))
   }
+}
+
+/// Words that cannot be used as a binding name in the emitted TypeScript / JavaScript (samlang
+/// allows them as identifiers, e.g. a parameter called `default`).
+const TS_RESERVED_WORDS: &[&str] = &[
+  "arguments", "await", "break", "case", "catch", "const", "continue", "debugger", "default",
+  "delete", "do", "enum", "eval", "export", "extends", "finally", "for", "implements", "in",
+  "instanceof", "new", "null", "package", "protected", "return", "static", "super", "switch",
+  "throw", "try", "typeof", "undefined", "var", "void", "while", "with", "yield", "let", "NaN",
+  "Infinity",
+];
+
+/// Prints a variable / parameter name; a reserved word gets a `$` prefix (`$` cannot occur in a
+/// samlang identifier, so the mangled name cannot collide with another variable).
+fn push_variable_name(collector: &mut String, name: &str) {
+  if TS_RESERVED_WORDS.contains(&name) {
+    collector.push('$');
+  }
+  collector.push_str(name);
 }
 
 pub const ZERO: Expression = Expression::Int32Literal(0);
@@ -245,7 +264,7 @@ impl Statement {
       Self::IsPointer { name, pointer_type: _, operand } => {
         Self::append_spaces(collector, level);
         collector.push_str("let ");
-        collector.push_str(name.as_str(heap));
+        push_variable_name(collector, name.as_str(heap));
         collector.push_str(" = typeof ");
         operand.pretty_print(collector, heap, symbol_table, str_table);
         collector.push_str(" === 'object';\n");
@@ -253,7 +272,7 @@ impl Statement {
       Self::Not { name, operand } => {
         Self::append_spaces(collector, level);
         collector.push_str("let ");
-        collector.push_str(name.as_str(heap));
+        push_variable_name(collector, name.as_str(heap));
         collector.push_str(" = !");
         operand.pretty_print(collector, heap, symbol_table, str_table);
         collector.push_str(";\n");
@@ -261,7 +280,7 @@ impl Statement {
       Self::Binary { name, operator, e1, e2 } => {
         Self::append_spaces(collector, level);
         collector.push_str("let ");
-        collector.push_str(name.as_str(heap));
+        push_variable_name(collector, name.as_str(heap));
         collector.push_str(" = ");
         match *operator {
           BinaryOperator::DIV => {
@@ -321,7 +340,7 @@ impl Statement {
       Self::IndexedAccess { name, type_, pointer_expression, index } => {
         Self::append_spaces(collector, level);
         collector.push_str("let ");
-        collector.push_str(name.as_str(heap));
+        push_variable_name(collector, name.as_str(heap));
         collector.push_str(": ");
         type_.pretty_print(collector, heap, symbol_table);
         collector.push_str(" = ");
@@ -334,7 +353,7 @@ impl Statement {
         Self::append_spaces(collector, level);
         if let Some(c) = return_collector {
           collector.push_str("let ");
-          collector.push_str(c.as_str(heap));
+          push_variable_name(collector, c.as_str(heap));
           collector.push_str(": ");
           return_type.pretty_print(collector, heap, symbol_table);
           collector.push_str(" = ");
@@ -348,7 +367,7 @@ impl Statement {
         for (n, t, _, _) in final_assignments {
           Self::append_spaces(collector, level);
           collector.push_str("var ");
-          collector.push_str(n.as_str(heap));
+          push_variable_name(collector, n.as_str(heap));
           collector.push_str(": ");
           t.pretty_print(collector, heap, symbol_table);
           collector.push_str(";\n");
@@ -369,7 +388,7 @@ impl Statement {
         }
         for (n, _, v1, _) in final_assignments {
           Self::append_spaces(collector, level + 1);
-          collector.push_str(n.as_str(heap));
+          push_variable_name(collector, n.as_str(heap));
           collector.push_str(" = ");
           v1.pretty_print(collector, heap, symbol_table, str_table);
           collector.push_str(";\n");
@@ -388,7 +407,7 @@ impl Statement {
         }
         for (n, _, _, v2) in final_assignments {
           Self::append_spaces(collector, level + 1);
-          collector.push_str(n.as_str(heap));
+          push_variable_name(collector, n.as_str(heap));
           collector.push_str(" = ");
           v2.pretty_print(collector, heap, symbol_table, str_table);
           collector.push_str(";\n");
@@ -420,7 +439,7 @@ impl Statement {
       Self::Break(break_value) => {
         if let Some((break_collector_str, _)) = break_collector {
           Self::append_spaces(collector, level);
-          collector.push_str(break_collector_str.as_str(heap));
+          push_variable_name(collector, break_collector_str.as_str(heap));
           collector.push_str(" = ");
           break_value.pretty_print(collector, heap, symbol_table, str_table);
           collector.push_str(";\n");
@@ -432,7 +451,7 @@ impl Statement {
         for v in loop_variables {
           Self::append_spaces(collector, level);
           collector.push_str("let ");
-          collector.push_str(v.name.as_str(heap));
+          push_variable_name(collector, v.name.as_str(heap));
           collector.push_str(": ");
           v.type_.pretty_print(collector, heap, symbol_table);
           collector.push_str(" = ");
@@ -442,7 +461,7 @@ impl Statement {
         if let Some((n, t)) = break_collector {
           Self::append_spaces(collector, level);
           collector.push_str("let ");
-          collector.push_str(n.as_str(heap));
+          push_variable_name(collector, n.as_str(heap));
           collector.push_str(": ");
           t.pretty_print(collector, heap, symbol_table);
           collector.push_str(";\n");
@@ -461,7 +480,7 @@ impl Statement {
         }
         for v in loop_variables {
           Self::append_spaces(collector, level + 1);
-          collector.push_str(v.name.as_str(heap));
+          push_variable_name(collector, v.name.as_str(heap));
           collector.push_str(" = ");
           v.loop_value.pretty_print(collector, heap, symbol_table, str_table);
           collector.push_str(";\n");
@@ -472,7 +491,7 @@ impl Statement {
       Self::Cast { name, type_, assigned_expression } => {
         Self::append_spaces(collector, level);
         collector.push_str("let ");
-        collector.push_str(name.as_str(heap));
+        push_variable_name(collector, name.as_str(heap));
         collector.push_str(" = ");
         assigned_expression.pretty_print(collector, heap, symbol_table, str_table);
         collector.push_str(" as unknown as ");
@@ -482,14 +501,14 @@ impl Statement {
       Self::LateInitDeclaration { name, type_ } => {
         Self::append_spaces(collector, level);
         collector.push_str("let ");
-        collector.push_str(name.as_str(heap));
+        push_variable_name(collector, name.as_str(heap));
         collector.push_str(": ");
         type_.pretty_print(collector, heap, symbol_table);
         collector.push_str(" = undefined as any;\n");
       }
       Self::LateInitAssignment { name, assigned_expression } => {
         Self::append_spaces(collector, level);
-        collector.push_str(name.as_str(heap));
+        push_variable_name(collector, name.as_str(heap));
         collector.push_str(" = ");
         assigned_expression.pretty_print(collector, heap, symbol_table, str_table);
         collector.push_str(";\n");
@@ -497,7 +516,7 @@ impl Statement {
       Self::StructInit { struct_variable_name, type_, expression_list } => {
         Self::append_spaces(collector, level);
         collector.push_str("let ");
-        collector.push_str(struct_variable_name.as_str(heap));
+        push_variable_name(collector, struct_variable_name.as_str(heap));
         collector.push_str(": ");
         type_.pretty_print(collector, heap, symbol_table);
         collector.push_str(" = [");
@@ -529,12 +548,12 @@ impl Function {
     collector.push('(');
     let mut iter = self.parameters.iter().zip(&self.type_.argument_types);
     if let Some((n, t)) = iter.next() {
-      collector.push_str(n.as_str(heap));
+      push_variable_name(collector, n.as_str(heap));
       collector.push_str(": ");
       t.pretty_print(collector, heap, symbol_table);
       for (n, t) in iter {
         collector.push_str(", ");
-        collector.push_str(n.as_str(heap));
+        push_variable_name(collector, n.as_str(heap));
         collector.push_str(": ");
         t.pretty_print(collector, heap, symbol_table);
       }
